@@ -164,6 +164,17 @@ func (f *Frame) staticCall(bi *BInfo, fn *ssa.Function, cl *closureVal, args []T
 			return []T{r}
 		}
 	}
+	// call-site contract of the function being executed (assumed effect of an external call,
+	// stated over the caller's variables)
+	if f.fc != nil && f.fc.CallSites != nil {
+		name := fn.String()
+		if fn.Origin() != nil {
+			name = fn.Origin().String()
+		}
+		if csc := f.fc.CallSites[name]; csc != nil {
+			return f.applyCallSite(bi, fn, csc, name)
+		}
+	}
 	if fo, ok := fn.Object().(*types.Func); ok && g.cs.Pure[funcKey(fo)] {
 		var clean []T
 		for _, a := range args {
@@ -599,4 +610,83 @@ func (f *Frame) havocClosureArgs(bi *BInfo, argVals []ssa.Value) {
 			g.assumeNote("A-closure-arg: a callee may run the closures passed to it; everything such a closure can change is havocked after the call")
 		}
 	}
+}
+
+// applyCallSite applies a call-site contract: modifies / ensures are evaluated in the caller's
+// own environment at the call (source variables of the caller), old() = state before the call.
+func (f *Frame) applyCallSite(bi *BInfo, fn *ssa.Function, csc *FuncContract, name string) []T {
+	g := f.g
+	st := bi.out
+	pre := st.clone()
+	// position: the block being executed
+	var at *ssa.BasicBlock
+	atIdx := 0
+	for b, info := range f.binfo {
+		if info == bi {
+			at = b
+		}
+	}
+	if at != nil {
+		atIdx = len(at.Instrs)
+		for i, ins := range at.Instrs {
+			if c, ok := ins.(ssa.CallInstruction); ok && c.Common().StaticCallee() == fn {
+				if v, isV := ins.(ssa.Value); isV {
+					if _, done := f.vals[v]; done {
+						continue
+					}
+					if _, done := f.tuples[v]; done {
+						continue
+					}
+				}
+				atIdx = i
+				break
+			}
+		}
+	}
+	envPre := f.specEnv(pre, at, atIdx, nil, nil)
+	envPre.old = pre
+	nx := g.freshConst("next@call", "Int")
+	g.assert(sLe(st.next, nx))
+	st.next = nx
+	for _, m := range csc.Modifies {
+		ents, err := f.evalModifies(envPre, m)
+		if err != nil {
+			g.resolutionFailure(f, fmt.Sprintf("callsite %s modifies: %v", name, err))
+			f.havocAll(bi)
+			break
+		}
+		for _, me := range ents {
+			es := g.arrReg[me.arr]
+			if me.ref == "" {
+				g.havocArr(st, me.arr, "call")
+				continue
+			}
+			f.frameCheck(bi, me.arr, me.ref, "call of "+name)
+			before := g.arr(st, me.arr, es)
+			after := g.havocArr(st, me.arr, "call")
+			g.assert(sForall("r!m", sImp(sNot(sEq("r!m", me.ref)), sEq(sel(after, "r!m"), sel(before, "r!m")))))
+		}
+	}
+	res := f.freshResults(fn.Signature)
+	post := f.specEnv(st, at, atIdx, nil, nil)
+	post.old = pre
+	post.result = res
+	for _, w := range csc.Witnesses {
+		t := post.resolveType(w.Type)
+		sort := g.sortOf(t)
+		if mt, ok := t.Underlying().(*types.Map); ok {
+			sort = fmt.Sprintf("(Array %s %s)", g.sortOf(mt.Key()), g.sortOf(mt.Elem()))
+		}
+		post.vars[w.Name] = mk(g.freshConst("wit:"+w.Name, sort), sort, t)
+	}
+	for _, c := range csc.Ensures {
+		v, err := post.evalBool(c.Expr)
+		if err != nil {
+			g.resolutionFailure(f, fmt.Sprintf("callsite %s ensures: %v", name, err))
+			continue
+		}
+		g.assert(sImp(bi.R, v.S))
+	}
+	g.assumeNote("call-site contract (assumed): %s in %s", name, fnDisplay(f.fn))
+	return res
 }
